@@ -53,12 +53,14 @@ fn position(ctx: &Ctx, len: usize, edges: &[usize]) -> usize {
     if len == 0 {
         return 0;
     }
-    match ctx.draw(4, "disk.where") {
-        0 | 1 if !edges.is_empty() => {
+    match ctx.draw(5, "disk.where") {
+        // exactly at a structure edge: the first bytes of a length prefix, an offsets buffer, a page header
+        0 if !edges.is_empty() => edges[ctx.below(edges.len(), "disk.edge")].min(len - 1),
+        1 | 2 if !edges.is_empty() => {
             let e = edges[ctx.below(edges.len(), "disk.edge")];
             (e + ctx.below(12, "disk.edge_off")).saturating_sub(4).min(len - 1)
         }
-        2 => len - 1 - ctx.below(len.min(48), "disk.tail"),
+        3 => len - 1 - ctx.below(len.min(48), "disk.tail"),
         _ => ctx.below(len, "disk.at"),
     }
 }
@@ -90,7 +92,7 @@ fn damage_inner(ctx: &Ctx, v: &mut Vec<u8>, edges: &[usize], other: &[u8]) -> St
                 desc.push(format!("flip bit {bit} of byte {at}"));
             }
             2 => {
-                let b = *ctx.pick(&[0x00u8, 0xFF, 0x7F, 0x80, 0x01], "disk.byte");
+                let b = *ctx.pick(&[0x00u8, 0xFF, 0x7F, 0x80, 0x01, v[at].wrapping_add(1), v[at].wrapping_add(2), v[at].wrapping_sub(1)], "disk.byte");
                 v[at] = b;
                 ctx.fault("disk.stuck_byte", at as u64);
                 desc.push(format!("byte {at} <- {b:#04x}"));
@@ -108,13 +110,15 @@ fn damage_inner(ctx: &Ctx, v: &mut Vec<u8>, edges: &[usize], other: &[u8]) -> St
                     x[..w].copy_from_slice(&v[at..at + w]);
                     let old = u64::from_le_bytes(x);
                     let max = if w == 4 { u32::MAX as u64 } else { u64::MAX };
-                    let new = match ctx.draw(7, "disk.field") {
+                    let new = match ctx.draw(10, "disk.field") {
                         0 => max,
                         1 => max >> 1,
-                        2 => old.wrapping_add(1) & max,
+                        2 | 7 => old.wrapping_add(1) & max,
                         3 => old.wrapping_sub(1) & max,
                         4 => old.wrapping_mul(2) & max,
                         5 => (old | 1 << (w * 8 - 2)) & max,
+                        8 => old.wrapping_add(1 + ctx.below(9, "disk.small") as u64) & max,
+                        9 => old.wrapping_sub(1 + ctx.below(9, "disk.small") as u64) & max,
                         _ => 0,
                     };
                     v[at..at + w].copy_from_slice(&new.to_le_bytes()[..w]);
